@@ -185,8 +185,13 @@ def run(ctx):
                                   'numeric literal does not keep its value/type',
                                   {'text': txt, 'dialect': d, 'expected': repr(exp), 'got': repr(val)})
     # ---------------- encode: printed constants and identifiers judged by the scanner (TLC)
-    enc_in = [('VAL', v) for v in vals] + [('PARTS', p) for p in encparts]
+    # identifier printing is done in ONE process, in the emitted order and again in reverse order, so that a
+    # printer whose answer depends on what it printed before shows up (both runs are judged)
+    enc_in = [('VAL', v) for v in vals]
     enc = pmap(_encode_case, enc_in, chunksize=128)
+    seq = [('PARTS', p) for p in encparts]
+    enc_in += seq + list(reversed(seq))
+    enc += [_encode_case(x) for x in seq] + [_encode_case(x) for x in reversed(seq)]
     traces, meta = [], []
     for (kind, payload), e in zip(enc_in, enc):
         if 'exc' in e:
